@@ -260,6 +260,52 @@ def run_machine(ctx, machine_cls, max_examples, steps, shrink=True):
         raise HarnessError(f"generator health: {ex}") from ex
 
 
+def run_atheris(ctx, strategy, body, runs, flush_every=2000):
+    """Drive the same Hypothesis strategy with libFuzzer's coverage feedback (atheris + fuzz_one_input).  libFuzzer never returns,
+    so the shard result is flushed to ctx.result_file from inside the target: every ``flush_every`` executions, on the first
+    unlisted finding (then the process exits) and when the requested number of runs is reached."""
+    import shutil
+    import tempfile
+
+    import atheris
+    from hypothesis import given
+
+    @hyp_settings(1, shrink=False)
+    @given(strategy)
+    def test(case):
+        body(case)
+
+    fuzz_one = test.hypothesis.fuzz_one_input
+    state = {"n": 0}
+    corpus = tempfile.mkdtemp(prefix="vf_corpus_")
+
+    def flush(final=False):
+        res = dict(ctx.res_base)
+        res.update(ctx.result())
+        res.setdefault("extra", {})["atheris_executions"] = state["n"]
+        with open(ctx.result_file, "w") as f:
+            json.dump(res, f)
+        if final:
+            shutil.rmtree(corpus, ignore_errors=True)
+            sys.stdout.flush()
+            os._exit(0)
+
+    def target(data):
+        state["n"] += 1
+        try:
+            fuzz_one(data)
+        except CaseFailed:
+            flush(final=True)  # ctx.violation holds the failing case (no shrinking under libFuzzer: the case is kept as found)
+        if state["n"] % flush_every == 0:
+            flush()
+        if state["n"] >= runs:
+            flush(final=True)
+
+    atheris.Setup([sys.argv[0], f"-runs={runs + 1000}", f"-seed={ctx.seed % 2**31 or 1}", "-max_len=4096", "-len_control=0", "-print_final_stats=1", corpus], target)
+    flush()
+    atheris.Fuzz()
+
+
 def fmt_exc(ex):
     return f"{type(ex).__name__}: {short(str(ex), 400)}"
 
